@@ -220,6 +220,10 @@ pub fn gen_workload(cx: &mut Cx, max_budget: i64) -> Workload {
     opts.ifdata_a2ml_block = cx.tape.chance(1, 2);
     let lo = LayoutOpts::swarm(&mut cx.tape);
     let mut g = DocGen::new(&mut cx.tape, opts);
+    if g.t.chance(1, 8) {
+        // a header that declares another version than the content was written for (a stale header block)
+        g.declared = Some(*g.t.pick(&crate::gen::VERSIONS));
+    }
     let nodes = if fragment { g.fragment() } else { g.document() };
     let r = render_nodes(&mut cx.tape, &nodes, &lo, if fragment { 2 } else { 0 });
     let spec_valid = a2mlgen::gen_a2ml(&mut cx.tape).text;
